@@ -189,14 +189,21 @@ fn explore_scenario(r: &Report, scen: &Scenario, kind: SchedulerKind, max_set: u
         }
         if set.len() >= 2 {
             let perms = mc::enumerate::all_permutations(set.len());
+            let mut n2 = 0u64;
             for p1 in &perms {
                 for p2 in &perms {
+                    // sets of 4: the same order again and the reversed order only (576 pairs per set
+                    // would triple the thorough run without a new re-enqueue pattern)
+                    if set.len() > 3 && p2 != p1 && !p2.iter().eq(p1.iter().rev()) {
+                        continue;
+                    }
                     let mut s2 = p1.clone();
                     s2.extend_from_slice(p2);
                     all_seqs.push(s2);
+                    n2 += 1;
                 }
             }
-            r.counter("double_arrival_sequences", (perms.len() * perms.len()) as u64);
+            r.counter("double_arrival_sequences", n2);
         }
         {
             for s in all_seqs {
